@@ -165,6 +165,17 @@ def curated(tier):
         jobs.append(dict(base, little=little, byteord='1,2,3,4' if little else '4,3,2,1', version='FCS3.0', datatype='I',
                          widths=[16, 24], ranges=[65536, 2 ** 24], events=big, offsets_in='header', end_plus_one=False,
                          pad=[0, 4, 0], curated='many_events'))
+    # TEXT segments that begin late or are long: the segment straddles byte 4096, 8192, 16384 or 65536 of the file
+    # (buffer sizes a reader may work with), once through padding in front of TEXT, once through many parameters
+    for version, offsets_in in (('FCS2.0', 'header'), ('FCS3.0', 'text'), ('FCS3.1', 'header')):
+        for boundary in (4096, 8192, 16384, 65536):
+            jobs.append(dict(base, version=version, datatype='I', widths=[16, 16, 16], ranges=[65536, 65536, 1024],
+                             events=ev16, offsets_in=offsets_in, end_plus_one=False, pad=[boundary - 58 - 60, 2, 0],
+                             curated='late_text'))
+    for D in (120, 230, 460):
+        wide = [[(7 * i + j) % 1024 for j in range(D)] for i in range(5)]
+        jobs.append(dict(base, version='FCS3.0', datatype='I', widths=[16] * D, ranges=[1024] * D, events=wide,
+                         offsets_in='header' if D != 230 else 'text', end_plus_one=False, pad=[0, 1, 0], curated='long_text'))
     return jobs
 
 
